@@ -207,7 +207,8 @@ func lcVariants(rng *rand.Rand, text string) map[string]string {
 		reflow.WriteString(w)
 		col += len(w)
 	}
-	return map[string]string{"upper": strings.ToUpper(text), "lower": strings.ToLower(text), "reflow": reflow.String(), "decorated": strings.Join(dec, "\n")}
+	return map[string]string{"upper": strings.ToUpper(text), "lower": strings.ToLower(text), "reflow": reflow.String(), "decorated": strings.Join(dec, "\n"),
+		"oneline": strings.Join(words, " ")}
 }
 
 // TestVerifC15: archive round trip on seeded subsets / orderings, incl. non-.txt names and synthetic files.
@@ -232,6 +233,12 @@ func TestVerifC15(t *testing.T) {
 		return orig(name)
 	}
 	defer func() { licenseclassifier.ReadLicenseFile = orig }()
+	var pendingSets []func()
+	defer func() {
+		for _, f := range pendingSets {
+			f()
+		}
+	}()
 	for round := 0; round < rounds; round++ {
 		perm := rng.Perm(len(all))
 		if size > len(all) {
@@ -240,6 +247,15 @@ func TestVerifC15(t *testing.T) {
 		var files []string
 		for _, i := range perm[:size] {
 			files = append(files, all[i])
+		}
+		if size < len(all) { // the one shipped license with text behind its END OF TERMS marker is always part of the archive
+			has := false
+			for _, f := range files {
+				has = has || f == "Apache-2.0.txt"
+			}
+			if !has {
+				files = append(files, "Apache-2.0.txt")
+			}
 		}
 		for k := range synth {
 			files = append(files, k)
@@ -300,6 +316,11 @@ func TestVerifC15(t *testing.T) {
 			}
 		}
 		queries = append(queries, "no license words here at all", "the software license terms of this work grant rights to the original code version")
+		// a query that is most of the Apache-2.0 terms: its acceptance depends on the size of the archived search set
+		if ap := lcRead("Apache-2.0.txt"); len(ap) > 0 {
+			queries = append(queries, ap[:len(ap)*87/100])
+		}
+		defer func(round int, loaded, direct *licenseclassifier.License, want []string) {}(round, loaded, direct, want)
 		for qi, q := range queries {
 			label := fmt.Sprintf("r%dq%d:%s", round, qi, lcHash(q))
 			memo := fmt.Sprintf("r%d|%s", round, lcHash(q))
@@ -310,6 +331,17 @@ func TestVerifC15(t *testing.T) {
 				rec.mm(fmt.Sprintf("direct%d", round), direct, al, q, h, fmt.Sprintf("%s|mm%v", memo, h), label)
 			}
 		}
+		// after the queries every lazily built search set of the direct classifier exists: the archived sets must be the same size
+		setsOK := true
+		var setDiff []string
+		for _, k := range want {
+			a, b := licenseclassifier.VerifInner(loaded).VerifSetTokens(k), licenseclassifier.VerifInner(direct).VerifSetTokens(k)
+			if b >= 0 && a != b {
+				setsOK = false
+				setDiff = append(setDiff, fmt.Sprintf("%s: archived %d tokens, direct %d", k, a, b))
+			}
+		}
+		rec.out.Emit(map[string]interface{}{"ev": "keys", "round": round, "loaded": lk, "direct": dk, "want": want, "values_equal": true, "ok": setsOK, "what": "search set sizes", "diff": setDiff})
 	}
 }
 
@@ -330,6 +362,11 @@ func TestVerifC16(t *testing.T) {
 	idx := rng.Perm(len(all))
 	if n < len(idx) {
 		idx = idx[:n]
+		for i, f := range all { // files that begin with a copyright notice are always in the sample
+			if f == "0BSD.txt" || f == "Apache-2.0.header.txt" || f == "zlib-acknowledgement.txt" {
+				idx = append(idx, i)
+			}
+		}
 	}
 	sort.Ints(idx)
 	variants := strings.Split(os.Getenv("VERIF_VARIANTS"), ",")
@@ -353,5 +390,14 @@ func TestVerifC16(t *testing.T) {
 			}
 		}
 		rec.mm("lic", l, al, strings.Join(ws, " "), true, "", f+"/mm-noisy")
+	}
+	// confidences around the threshold: a run of foreign characters spliced into the middle of a license, one
+	// character longer each time, walks the confidence down through the threshold in steps of about 1/len
+	for _, f := range []string{"MIT.txt", "ISC.txt", "BSD-3-Clause.txt"} {
+		txt := lcNorm(lcRead(f))
+		mid := len(txt) / 2
+		for L := len(txt) * 17 / 100; L <= len(txt)*23/100; L++ {
+			rec.mm("lic", l, al, txt[:mid]+" "+strings.Repeat("q", L)+" "+txt[mid:], true, "", fmt.Sprintf("%s/splice%d", f, L))
+		}
 	}
 }
